@@ -66,6 +66,7 @@ type PairConfig struct {
 	Listeners      []ListenerSpec
 	ViaRelay       bool                // put a recording relay between client and server (tcp, http(s), udp carriers)
 	HostSpelling   string              // "127.0.0.1" (default), "localhost", or "(none)" for a host-less upstream URL
+	ServerScheme   string              // other documented spelling of the server's address scheme (e.g. "http+tls", "wss" for an https carrier)
 	Domain         string              // DNS tunnel domain
 	ExtraUpstreams []upstream.Upstream // tried before the pair's own upstream (C16)
 	HTTPEndpoints  []EndpointSpec      // websocket paths of an http(s) server (default: /ws/all with AllowList)
@@ -163,7 +164,11 @@ func buildEndpoints(cfg *PairConfig, p *Pair) (server.Server, upstream.Upstream,
 		if path == "" {
 			path = "/ws/all"
 		}
-		srv := &server.HttpServer{ServerConfig: sc, Address: addr.MustParseAddress(fmt.Sprintf("%s://127.0.0.1:%d", cfg.Carrier, port)), Endpoints: eps}
+		sscheme := cfg.Carrier
+		if cfg.ServerScheme != "" {
+			sscheme = cfg.ServerScheme
+		}
+		srv := &server.HttpServer{ServerConfig: sc, Address: addr.MustParseAddress(fmt.Sprintf("%s://127.0.0.1:%d", sscheme, port)), Endpoints: eps}
 		cport := port
 		if cfg.ViaRelay {
 			p.Relay = NewRelay(HostPort(port))
